@@ -617,12 +617,22 @@ def m_vec_macro(ex, st, callee, A):
             raise NotEncoded(f'vec! buffer shape: {e}')
     if re.search(r'^(?:std::vec::|alloc::vec::)?Vec::<.*>::new$', callee):
         return Agg('struct', '~vec', None, [])
+    if re.search(r'^<(?:std::vec::|alloc::vec::)?Vec<.*> as IntoIterator>::into_iter$', callee) and isinstance(A[0], Agg) and A[0].name == '~vec':
+        return Agg('struct', '~vec_iter', None, list(A[0].fields))
+    if re.search(r'^<(?:std::vec::|alloc::vec::)IntoIter<.*> as Iterator>::next$', callee) and isinstance(A[0], Ref):
+        it = ex.read(st, A[0].fid, A[0].place)
+        if isinstance(it, Agg) and it.name == '~vec_iter':
+            if not it.fields:
+                return none()
+            r = A[0]
+            first, rest = it.fields[0], list(it.fields[1:])
+            return [([], some(first), lambda s2: ex.write(s2, r.fid, r.place, Agg('struct', '~vec_iter', None, rest)))]
     return None
 
 
 def install(ex):
     for rx, fn in [
-        (r'new_uninit$|box_assume_init_into_vec_unsafe::<|Vec::<.*>::new$', m_vec_macro),
+        (r'new_uninit$|box_assume_init_into_vec_unsafe::<|Vec::<.*>::new$|Vec<.*> as IntoIterator>::into_iter$|IntoIter<.*> as Iterator>::next$', m_vec_macro),
         (r'<impl [iu](8|16|32|64|128|size)>::\w+$', m_int),
         (r'(PartialOrd|PartialEq|Ord)(<[^>]*>)?( for \w+)?>::\w+$', m_int_cmp),
         (r'PartialOrd(<[^>]*>)?>::(lt|le|gt|ge)$', m_partial_ord),
